@@ -69,7 +69,8 @@ def gen_plan(rng, T, nprocs, nev, t0):
                 t = round(t + rng.choice([0.07, 0.31, 0.49, 1.13]), 2)
             else:
                 t = t - rng.choice([0, 0.25])           # often <= now: must be refused
-            elems.append(["num", t])
+            # the stop instant may be any real number type: int, float, Fraction, Decimal (same instant, same meaning)
+            elems.append(["num", t] + ([rng.choice(["frac", "dec"])] if rng.random() < 0.2 else []))
         elif r < 0.8:
             if rng.random() < 0.5 and nev:
                 elems.append(["ev", f"E{rng.randrange(nev)}"])
@@ -141,17 +142,26 @@ def run_split(ctx, prog, plan_, T, Tsteps, K, stats):
             break
         if el[0] == "num":
             t = el[1]
+            targ = t
+            if len(el) > 2 and t != float("inf"):
+                from decimal import Decimal
+                from fractions import Fraction
+                targ = Fraction(t) if el[2] == "frac" else Decimal(repr(t))
+                if float(targ) != t:
+                    targ = t
+                else:
+                    stats["stop_instants_of_other_numeric_type"] += 1
             if t <= env.now:
                 stats["refused_until"] += 1
                 n0, now0 = len(r.tape), env.now
-                res = r.run_call(until=t)
+                res = r.run_call(until=targ)
                 if not (res[0] == "raise" and isinstance(res[1], ValueError)):
                     viol.append(("until-not-after-now-accepted", "run(until=t) with t <= now was not refused with ValueError",
                                  {"t": t, "now": now0, "result": repr(res)}))
                 elif len(r.tape) != n0 or env.now != now0:
                     viol.append(("refused-until-had-effect", "a refused run(until=t<=now) changed the simulation", {"t": t}))
                 continue
-            res = r.run_call(until=t)
+            res = r.run_call(until=targ)
             if res[0] == "raise":
                 log_escape(res[1])
             elif res[0] == "ret":
@@ -336,7 +346,7 @@ def net_split_part(ctx, n):
     """network pipelines under random split plans: the sink trace must equal the uninterrupted one"""
     import random as _r
     from vlib import netscen
-    kinds = ("wfq-str", "drr-str", "sp", "port-wire-loss", "red", "hub", "switch")
+    kinds = ("wfq-str", "drr-str", "sp", "port-wire-loss", "red", "hub", "switch", "sched-monitor", "sched-monitor")
     for i in range(n):
         key = f"C03-netsplit:{ctx.seed}:{ctx.shard}:{i}"
         name, whole = netscen.scenario(_r.Random(key), None, kinds)
@@ -352,6 +362,11 @@ def net_split_part(ctx, n):
         nums = sorted(x[1] for x in stops if x[0] == "num")
         it = iter(nums)
         stops = [["num", next(it)] if x[0] == "num" else x for x in stops]
+        if name == "sched-monitor":
+            # a phase of single steps after the traffic has ended, while only the monitor is still active
+            stops.append(["num", times[-1] + 0.25] if times else ["steps", 3])
+            stops.append(["steps", rng.randint(5, 60)])
+            ctx.count("net_split_plans_with_monitor")
         name2, split = netscen.scenario(_r.Random(key), stops, kinds)
         ctx.count("net_split_plans")
         if split != whole:
@@ -430,7 +445,7 @@ def run_shard(ctx):
     if ctx.shard == 0:
         inf_stop_probe(ctx)
     stats = {k: 0 for k in ("plans", "numeric_stops", "stops_coinciding", "until_event_calls",
-                            "until_event_late_waiter", "step_calls", "refused_until", "inprocess_reruns", "skipped_many_escapes", "post_escape_calls")}
+                            "until_event_late_waiter", "step_calls", "refused_until", "inprocess_reruns", "skipped_many_escapes", "post_escape_calls", "stop_instants_of_other_numeric_type")}
     for i in ctx.cases(ncases(ctx.tier)):
         rng = ctx.rng(i)
         prog = kern.gen_program(rng, PROFILE)
@@ -458,7 +473,7 @@ def replay(ctx, case):
     if "netsplit_case" in case:
         return net_split_part(ctx, 150)
     stats = {k: 0 for k in ("plans", "numeric_stops", "stops_coinciding", "until_event_calls",
-                            "until_event_late_waiter", "step_calls", "refused_until", "inprocess_reruns", "skipped_many_escapes", "post_escape_calls")}
+                            "until_event_late_waiter", "step_calls", "refused_until", "inprocess_reruns", "skipped_many_escapes", "post_escape_calls", "stop_instants_of_other_numeric_type")}
     viol, _, _ = one_case(ctx, case["program"], case["plan"], stats)
     for m, what, wit in viol:
         ctx.violation(m, what, wit, case)
